@@ -155,6 +155,22 @@ def analyse(unit, vr, linemap, report, gen_path=''):
                 tags = ['C01']
         elif kind in ('arith-overflow', 'div-zero', 'shift-overflow', 'index', 'termination', 'unreachable', 'panic', 'cast'):
             tags = ['C01']
+        if not tags and fn == '?':
+            # obligation inside a @raw block (lemma): tags from the closest preceding doc comment naming properties
+            for sp_ in prim + sec:
+                o_ = sp_['origin']
+                if o_ and o_['kind'] == 'vspec':
+                    try:
+                        ls = open(o_['file']).read().split('\n')
+                        for k_ in range(o_['line'] - 1, max(-1, o_['line'] - 80), -1):
+                            if ls[k_].lstrip().startswith('///') and re.search(r'\bC\d{2}\b', ls[k_]):
+                                tags = re.findall(r'\bC\d{2}\b', ls[k_]); break
+                            if ls[k_].startswith('@'): break
+                    except Exception:
+                        pass
+                    break
+        if tags and kind not in ('precondition',) and False:
+            pass
         elif not tags:
             # assertion / untagged clause: serves whatever the function's contract serves
             for f in report['functions_verified']:
